@@ -193,8 +193,13 @@ Definition rnd_pick (n : nat) (r : Z) : res nat :=
 (* ------------------------------------------------------------------ *)
 (* least_active_loadbalance.go.  State: lb.actives (nil at first). *)
 
-(* if len(lb.actives) < n { lb.actives = make([]int64, n) } *)
+(* if len(lb.actives) < n { actives := make([]int64, n); copy(actives, lb.actives); lb.actives = actives }
+   (since /repo 905f441; before it the counters were dropped: la_prepare_old) *)
 Definition la_prepare (n : nat) (actives : list Z) : list Z :=
+  if Nat.ltb (length actives) n then actives ++ repeat 0 (n - length actives) else actives.
+
+(* the code before 905f441: if len(lb.actives) < n { lb.actives = make([]int64, n) } *)
+Definition la_prepare_old (n : nat) (actives : list Z) : list Z :=
   if Nat.ltb (length actives) n then repeat 0 n else actives.
 
 (* if len(lb.actives) > n { leastActive = lb.actives[:n].Min() } else { leastActive = lb.actives.Min() } *)
@@ -650,34 +655,61 @@ Definition wla_machine (W : list Z) : machine wla_st :=
 (* Replaying an observed history: the implementation's choice at each start is given; the
    model reports its admissible set, draws the rand value selecting the observed choice (or its
    own first admissible one when the observed choice is not admissible), and goes on. *)
-Inductive oevent := OStart (chosen : nat) | OFinish (k : nat) (o : outcome).
+(* Histories in which the client's URL list changes between calls ([CConfig n]: from now on
+   len(urls) = n).  RoundRobin, Random and LeastActive read the list at every call; the four
+   weighted balancers keep their own list from construction and do not look at it.  Picks are
+   recorded together with the n in force when they were made. *)
+Inductive cevent := CEv (e : event) | CConfig (n : nat).
+
+Fixpoint run_cfg {S} (mk : nat -> machine S) (n : nat) (s : S) (calls : list (option nat))
+  (h : list cevent) : res (list (nat * nat) * (S * list (option nat))) :=
+  match h with
+  | [] => Ok ([], (s, calls))
+  | CConfig n' :: h' => run_cfg mk n' s calls h'
+  | CEv (EStart r) :: h' =>
+      bind (m_pick (mk n) s r) (fun is =>
+      bind (run_cfg mk n (snd is) (calls ++ [Some (fst is)]) h') (fun x => Ok ((fst is, n) :: fst x, snd x)))
+  | CEv (EFinish k o) :: h' =>
+      match nth_error calls k with
+      | Some (Some i) => bind (m_settle (mk n) s i o) (fun s1 => run_cfg mk n s1 (upd_nth k None calls) h')
+      | _ => BadScript
+      end
+  end.
+
+Inductive oevent := OStart (chosen : nat) | OFinish (k : nat) (o : outcome) | OConfig (n : nat).
 
 Record step_obs := { so_adm : list nat; so_pick : option nat; so_state : list Z; so_draw : Z * Z }.
 
-Fixpoint run_obs {S} (m : machine S) (s : S) (calls : list (option nat)) (h : list oevent)
+Fixpoint run_obs {S} (mk : nat -> machine S) (n : nat) (s : S) (calls : list (option nat)) (h : list oevent)
   : list (res step_obs) :=
   match h with
   | [] => []
+  | OConfig n' :: h' =>
+      Ok {| so_adm := []; so_pick := None; so_state := m_obs (mk n') s; so_draw := no_draw |}
+      :: run_obs mk n' s calls h'
   | OStart chosen :: h' =>
+      let m := mk n in
       match m_adm m s with
       | Ok adm =>
           let c := if existsb (Nat.eqb chosen) adm then chosen else hd chosen adm in
           match m_pick m s (m_oracle m s c) with
           | Ok (i, s1) =>
               Ok {| so_adm := adm; so_pick := Some i; so_state := m_obs m s1; so_draw := m_draw m s |}
-              :: run_obs m s1 (calls ++ [Some i]) h'
+              :: run_obs mk n s1 (calls ++ [Some i]) h'
           | Panic => [Panic] | OutOfFuel => [OutOfFuel] | BadScript => [BadScript]
           end
       | Panic => [Panic] | OutOfFuel => [OutOfFuel] | BadScript => [BadScript]
       end
   | OFinish k o :: h' =>
+      let m := mk n in
       match nth_error calls k with
       | Some (Some i) =>
           match m_settle m s i o with
           | Ok s1 => Ok {| so_adm := []; so_pick := None; so_state := m_obs m s1; so_draw := no_draw |}
-                     :: run_obs m s1 (upd_nth k None calls) h'
+                     :: run_obs mk n s1 (upd_nth k None calls) h'
           | Panic => [Panic] | OutOfFuel => [OutOfFuel] | BadScript => [BadScript]
           end
       | _ => [BadScript]
       end
   end.
+
